@@ -1,5 +1,5 @@
-import FteikVerif.Generated.KSolver2
-import FteikVerif.Generated.KSolver3
+import FteikVerif.Generated.KSweep2
+import FteikVerif.Generated.KSweep3
 import FteikVerif.Proofs.Sweep
 /-!
 # Structural facts proved directly about the translated `sweep` kernels
